@@ -165,6 +165,11 @@ def extract(cfg="default", extra_rustflags=""):
         lock.close()
 
 
+def failed_closed(o):
+    """an obligation of a (shared) rule that did not decide anything: unsupported form, missing anchor, internal error, count"""
+    return o["status"] != "holds" and (str(o.get("detail", "")).startswith("UNSUPPORTED-FORM") or any(x in o["key"] for x in ("ANCHOR-MISSING", "INTERNAL-ERROR", "INSTANCE-COUNT")))
+
+
 # ---------------------------------------------------------------------------- rule context
 
 class Ctx:
